@@ -1,6 +1,7 @@
 (* C14 — every place where the anchored files iterate a hash-ordered container is accounted for. *)
 From Coq Require Import String Ascii List Bool.
-From RV Require Import Gen.Common Gen.IterSites.
+From Coq Require Import Permutation.
+From RV Require Import Gen.Common Gen.IterSites Model.AllDb Proofs.SortStr.
 Import ListNotations.
 Local Open Scope string_scope.
 
@@ -42,3 +43,17 @@ Print Assumptions C14_pin_sort_key_total.
 Lemma C14_pin_alldb_sorted : alldb_sorted = true.
 Proof. reflexivity. Qed.
 Print Assumptions C14_pin_alldb_sorted.
+
+(* the final step of all_dot_brackets (collect into a set, then sort): the list returned is the same for every order and
+   multiplicity in which the solutions arrive — the hash-seeded iteration order of the set cannot reach the output *)
+Theorem C14_alldb_order_independent : forall l l', (forall y, In y l <-> In y l') -> sort_dedup_str l = sort_dedup_str l'.
+Proof. exact sort_dedup_set_invariant. Qed.
+Print Assumptions C14_alldb_order_independent.
+
+Theorem C14_alldb_permutation : forall l l', Permutation l l' -> sort_dedup_str l = sort_dedup_str l'.
+Proof. exact sort_dedup_permutation. Qed.
+Print Assumptions C14_alldb_permutation.
+
+Theorem C14_alldb_no_repeats : forall l, NoDup (sort_dedup_str l).
+Proof. exact sort_dedup_nodup. Qed.
+Print Assumptions C14_alldb_no_repeats.
